@@ -70,13 +70,15 @@ def fmtR (op : Op) (out : Out) (fresh : Bool := true) : String :=
   s!"{v} log={fmtLog (sortBy LogE.reg out.log)}"
 
 /-- the C section: live registrations in registration order, fallback, default id -/
-def fmtC (live : List (Id × Reg)) (unknown : List Id) (fb : Option Reg) (dflt : Id) (bi : Bool := false) : String :=
-  let items := (sortBy (·.2) live).map (fun p => s!"{p.1.toNat}>{p.2}") ++ unknown.map (fun i => s!"{i.toNat}>?")
+def fmtC (live : List (Id × Reg)) (unknown : List Id) (fb : Option Reg) (dflt : Id) (bi : Bool := false)
+    (newReg : Option Reg := none) : String :=
+  -- the element reserved by the running op shows as `new>r`: which fresh id is handed out is free
+  let items := (sortBy (·.2) live).map (fun p => if some p.2 == newReg then s!"new>{p.2}" else s!"{p.1.toNat}>{p.2}") ++ unknown.map (fun i => s!"{i.toNat}>?")
   let l := if items.isEmpty then "-" else ",".intercalate items
   let f := match fb with | some r => toString r | none => if bi then "builtin" else "-"
   s!"live={l} fb={f} def={dflt.toNat}"
 
-def fmtCSpec (sp : Spec) : String := fmtC sp.live [] sp.fb sp.dflt sp.bi
+def fmtCSpec (sp : Spec) (newReg : Option Reg := none) : String := fmtC sp.live [] sp.fb sp.dflt sp.bi newReg
 
 def userLive (tab : Option Table) : List (Id × Reg) :=
   match tab with
@@ -87,7 +89,8 @@ def otherLive (tab : Option Table) : List Id :=
   | none => []
   | some t => (t.slots.filter (fun s => s.cmd == some .logReply)).map (·.id)
 
-def fmtCModel (m : St) : String := fmtC (userLive m.d.tab) (otherLive m.d.tab) m.d.err m.d.dflt m.d.bi
+def fmtCModel (m : St) (newReg : Option Reg := none) : String :=
+  fmtC (userLive m.d.tab) (otherLive m.d.tab) m.d.err m.d.dflt m.d.bi newReg
 
 def fmtSlot (s : Slot) : String :=
   match s.cmd with
@@ -164,11 +167,11 @@ def fmtS (sp : Spec) (op : Op) (mOut : Out) : String :=
   let cands := (mOut :: candidates sp op).eraseDups
   let ok := cands.filterMap fun o => (sp.step op o).map fun sp' =>
     match op, o.ret with
-    -- which fresh id is handed out is free: the id shows in the content, which is compared with the model only
-    | .reserve _, .val _ => s!"{fmtR op o} ; *"
+    -- which fresh id is handed out is free (shown as `new`); everything that was registered stays as it was
+    | .reserve _, .val _ => s!"{fmtR op o} ; {fmtCSpec sp' (some sp.next)}"
     | _, _ => s!"{fmtR op o} ; {fmtCSpec sp'}"
   let ok := match op with
-    | .reserve _ => ok ++ ["ok fresh=1 log=- ; *"]
+    | .reserve _ => ok ++ [s!"ok fresh=1 log=- ; {fmtCSpec { sp with live := sp.live ++ [(0, sp.next)] } (some sp.next)}"]
     | _ => ok
   if ok.isEmpty then "(none)" else " || ".intercalate ok.eraseDups
 
@@ -186,7 +189,10 @@ def runOp (s : DSt) (op : Op) (evid : Id := 0) : DSt × String :=
   let fresh := match op, out.ret with
     | .reserve _, .val v => ((userLive m'.d.tab).filter (fun p => p.1.toNat == v.toNat)).length ≤ 1
     | _, _ => true
-  let line := s!"R {fmtR op out fresh} | C {fmtCModel m'} | I {fmtI m' (retText out.ret) evid out.log} | S {sline}"
+  let newReg : Option Reg := match op, out.ret with
+    | .reserve _, .val _ => some s.m.next
+    | _, _ => none
+  let line := s!"R {fmtR op out fresh} | C {fmtCModel m' newReg} | I {fmtI m' (retText out.ret) evid out.log} | S {sline}"
   ({ s with m := m', sp := sp' }, line)
 
 /-- event id as left in the caller's event structure (internal) -/
@@ -277,6 +283,30 @@ def stepLine (s : DSt) (w : List String) : DSt × String :=
   | _ =>
     if !s.active then (s, "bad-op")
     else match w with
+      | ["e", "reentry", mode, vw] =>
+        -- handlers on a dispatcher of their own whose end-of-life call unregisters another id: whatever the order,
+        -- every registration gets exactly one end-of-life call (the property itself; no model behind it)
+        let vs := (vw.splitOn ",").mapM fun t => match t.toList with
+          | [c] => if '0' ≤ c ∧ c ≤ '8' then some (c.toNat - 48) else none
+          | _ => none
+        let km : Option (Nat × Nat) :=
+          if mode = "fini" ∨ mode = "clearall" ∨ mode = "drop" then some (0, 0)
+          else match mode.toList with
+            | ['c', 'l', 'e', 'a', 'r', c] => if '1' ≤ c ∧ c ≤ '8' then some (0, c.toNat - 48) else none
+            | ['c', 's', 'e', 't', c] => if '1' ≤ c ∧ c ≤ '8' then some (1, c.toNat - 48) else none
+            | _ => none
+        match vs, km with
+        | some v, some (extra, which) =>
+          if v.isEmpty ∨ v.length > 8 ∨ v.any (· > v.length) ∨ which > v.length then (s, "bad-op")
+          else
+            let r := "eol=" ++ ",".intercalate (List.replicate (v.length + extra) "1")
+            (s, s!"R {r} log=- | C {fmtCModel s.m} | I {fmtI s.m "0" 0 []} | S {r} log=- ; {fmtCSpec s.sp}")
+        | _, _ => (s, "bad-op")
+      | ["e", "rc", onoff] =>
+        -- from now on the events carry (no longer carry) a reply context: nothing the property speaks of changes
+        if onoff = "on" ∨ onoff = "off" then
+          (s, s!"R ok log=- | C {fmtCModel s.m} | I {fmtI s.m "0" 0 []} | S ok log=- ; {fmtCSpec s.sp}")
+        else (s, "bad-op")
       | ["e", "djb2", hex] =>
         -- `mpt_hash_djb2` with `len = -1` (C string) and with the byte count
         match parseHex hex with
@@ -336,6 +366,7 @@ def stepX (s : DSt) (w : List String) : DSt × String :=
   | ["xe", "clear", id] => let (s', o) := stepLine s ["e", "clear", id]; (s', boolRet o)
   | "xe" :: "emit" :: rest => stepLine s ("e" :: "emit" :: rest)
   | ["xe", "hash", a, b] => stepLine s ["e", "hash", a, b]
+  | ["xe", "rc", a] => stepLine s ["e", "rc", a]
   | ["xe", "reserve", n] => stepLine s ["e", "reserve", n]
   | ["xe", "get", idw] =>
     if !s.active then (s, "bad-op")
